@@ -502,7 +502,11 @@ func TestMaliciousFastSync(t *testing.T) {
 				t.Fatalf("R fork: %v", err)
 			}
 		}
-		fp := rapid.IntRange(fr+1, 2*nVal).Draw(t, "forkP")
+		lo := fr + 1
+		if lo < 2 {
+			lo = 2 // a single block on top of the requester's tip is simply a valid next block: no sync, nothing malicious to serve
+		}
+		fp := rapid.IntRange(lo, 2*nVal).Draw(t, "forkP")
 		var seg []*blockchain.Block
 		for i := 0; i < fp; i++ {
 			b, err := P.Apply(node.Spec{Script: node.Script{Salt: 80 + uint32(i%5)}})
@@ -538,19 +542,14 @@ func TestMaliciousFastSync(t *testing.T) {
 				tip = bad // the offered tip itself is the invalid block
 			}
 		case "reordered":
+			// a gap: one block that is not the advertised tip is missing, so its successor does not link to what precedes it
 			if len(served) >= 2 {
 				hi := len(served) - 2
 				if hi > 4 {
 					hi = 4
 				}
-				k := rapid.IntRange(0, hi).Draw(t, "swap")
-				served[k], served[k+1] = served[k+1], served[k]
-				// heights are sorted ascending by the downloader; make the disorder real by swapping header heights is not
-				// possible without invalidating signatures, so drop one block instead: a gap in the segment
-				served = append(served[:k], served[k+1:]...)
-				if !bytes.Equal(served[len(served)-1].Header.ID, tip.Header.ID) {
-					served = append(served, node.CloneBlock(tip))
-				}
+				k := rapid.IntRange(0, hi).Draw(t, "missing")
+				served = append(append([]*blockchain.Block{}, served[:k]...), served[k+1:]...)
 			}
 		}
 		M := newMalicious(t, listenAddr(base+1))
